@@ -97,6 +97,11 @@ def _key(why, ctxinfo):
 def run_case(res: Result, spec, idx, contract_ok):
     pname = PROFILE_CYCLE[idx % len(PROFILE_CYCLE)]
     P = gen.profile(pname)
+    if idx % 16 == 5:
+        # invoked services, some failing with nobody handling the failure: the machine ends in the
+        # error status - in a legal configuration all the same
+        P = gen.profile(pname, p_invoke=0.35, p_invoke_fail=0.5, p_unhandled_fail=0.6)
+        res.count("cases.with-unhandled-service-failures")
     crng = rng_for(spec["seed"], ID, spec["chunk"], idx, "case")
     case = gen.gen_case(crng, P)
     tree = case.tree
@@ -180,7 +185,10 @@ def run_case(res: Result, spec, idx, contract_ok):
         names = gen.action_names(case.plan)
         frng = rng_for(spec["seed"], ID, spec["chunk"], idx, "faults")
         kw = {}
-        if idx % 4 == 1 and names:
+        # (not together with services: a re-armed service that completes at once re-triggers the
+        #  transition that failed, for ever - such a run never settles and can only be observed
+        #  mid-transition)
+        if idx % 4 == 1 and names and not case.invokes:
             kw["drop"] = frng.sample(names, min(len(names), frng.randint(1, 2)))
             res.count("runs.with-missing-action." + engine)
         if engine == "async" and idx % 3 != 0:
